@@ -516,6 +516,8 @@ mod sched {
         steps: u64,
         // per-task number of times it was scheduled: feeds the interleaving hash
         progress: Vec<u32>,
+        /// (Lowest strategy) tasks whose last scheduling point was a yield
+        parked: Vec<bool>,
     }
 
     impl SimScheduler {
@@ -533,7 +535,7 @@ mod sched {
                     Mode::Draw { rng, strategy: knobs.strategy.clone(), prio: Vec::new(), change_points, low: 0 }
                 }
             };
-            SimScheduler { mode, shared, started: false, steps: 0, progress: Vec::new() }
+            SimScheduler { mode, shared, started: false, steps: 0, progress: Vec::new(), parked: Vec::new() }
         }
     }
 
@@ -583,10 +585,23 @@ mod sched {
                 Mode::Draw { rng, strategy, prio, change_points, low } => match strategy {
                     Strategy::Random => ids[rng.usize_below(ids.len())],
                     Strategy::Lowest => {
-                        if is_yielding {
-                            fair_next(&ids, cur)
+                        // a task that yielded (spin relief, futex wait) stays parked until every other runnable task
+                        // has yielded or blocked as well: otherwise the lowest id would spin with one step of
+                        // progress for the others per relief
+                        if let Some(c) = cur {
+                            if self.parked.len() <= c {
+                                self.parked.resize(c + 1, false);
+                            }
+                            self.parked[c] = is_yielding;
+                        }
+                        let awake: Vec<usize> = ids.iter().copied().filter(|i| !self.parked.get(*i).copied().unwrap_or(false)).collect();
+                        if let Some(m) = awake.iter().min() {
+                            *m
                         } else {
-                            *ids.iter().min().unwrap()
+                            for p in self.parked.iter_mut() {
+                                *p = false;
+                            }
+                            fair_next(&ids, cur)
                         }
                     }
                     Strategy::Bursty { q } => {
